@@ -979,6 +979,145 @@ def extract_mutations():
 # --------------------------------------------------------------------------------------------
 
 
+_PRIVATE_SRC = """
+module q0
+  implicit none
+  type ta
+  contains
+    procedure, nopass, private :: pa => sa
+    procedure, nopass :: pb => sb
+  end type ta
+  type, extends(ta) :: tb
+  contains
+    generic :: g => pa, pb
+  end type tb
+  type, extends(tb) :: tc
+  contains
+    generic :: h => pa
+  end type tc
+contains
+  subroutine sa()
+  end subroutine sa
+  subroutine sb()
+  end subroutine sb
+end module q0
+"""
+
+
+def probe_private():
+    """-> [(slot, entity | None)]: the specifics of tb's `generic :: g => pa, pb` (slots 0, 1) and of tc's
+    `generic :: h => pa` (slot 2), where `pa` (10) is a PRIVATE and `pb` (12) a public binding of ta"""
+    project, exc = _correlated({"q.f90": _PRIVATE_SRC})
+    if exc is not None:
+        raise LookupError(f"probe: correlate() failed on the private-binding witness: {type(exc).__name__}: {exc}")
+    m = _unit(project, "q0")
+    ta, tb, tc = (_by(m.types, n, "type") for n in ("ta", "tb", "tc"))
+    ents = {id(_by(ta.boundprocs, "pa", "binding")): 10, id(_by(ta.boundprocs, "pb", "binding")): 12}
+    g = _by(tb.boundprocs, "g", "generic binding")
+    h = _by(tc.boundprocs, "h", "generic binding")
+    cells = [g.bindings[0], g.bindings[1], h.bindings[0]]
+    out = []
+    for i, c in enumerate(cells):
+        if isinstance(c, str):
+            out.append((i, None))
+        elif id(c) in ents:
+            out.append((i, ents[id(c)]))
+        else:
+            raise LookupError(f"probe_private: specific {i} holds {type(c).__name__} {getattr(c, 'name', '?')}")
+    return out
+
+
+def private_variant():
+    """'1' = an extension does not inherit the PRIVATE bindings of its parent type, '0' = it does"""
+    return "1" if dict(probe_private())[0] is None else "0"
+
+
+# --------------------------------------------------------------------------------------------
+# accessibility: which identifiers of a module a USE statement can see
+# --------------------------------------------------------------------------------------------
+
+def _am(name, dflt, stmts, uses, decls, refs):
+    return {"name": name, "dflt": dflt, "stmts": stmts, "uses": [{"mod": u, "only": False, "items": []} for u in uses],
+            "decls": [{"k": k, "name": n, "ent": e, "attr": a} for k, n, e, a in decls],
+            "refs": [{"id": i, "k": k, "name": n} for i, k, n in refs]}
+
+
+_ACC_REFS = [("ty", "ta"), ("pa", "ta"), ("ty", "tb"), ("pa", "tb"), ("pa", "pa"), ("pa", "pb"), ("pa", "pc")]
+
+# hand-written witness (independent of the generator of the harness): a default-public and a default-private
+# module with the constructor idiom under every combination of attribute / no attribute, access statements,
+# users of both, a default-private re-exporter, and a module with a type of a hidden name
+ACCESS_WITNESS = {"modules": [
+    _am("m0", "public", [("private", "pa")], [],
+        [("t", "ta", 1, "private"), ("g", "ta", 2, None), ("t", "tb", 3, None), ("g", "tb", 4, None),
+         ("p", "pa", 5, None), ("p", "pb", 6, None), ("a", "pc", 7, None)], []),
+    _am("m1", "private", [("public", "pa")], [],
+        [("t", "ta", 8, "public"), ("g", "ta", 9, None), ("t", "tb", 10, None), ("g", "tb", 11, None),
+         ("p", "pa", 12, None), ("p", "pb", 13, None)], []),
+    _am("m2", "public", [], ["m0"], [], [(i, k, n) for i, (k, n) in enumerate(_ACC_REFS)]),
+    _am("m3", "public", [], ["m1"], [], [(10 + i, k, n) for i, (k, n) in enumerate(_ACC_REFS)]),
+    _am("m4", "private", [("public", "tb")], ["m0"], [], []),
+    _am("m5", "public", [], ["m4"], [], [(20 + i, k, n) for i, (k, n) in enumerate(_ACC_REFS)]),
+    _am("m6", "public", [], ["m0"], [("t", "ta", 14, None)], [(30, "ctor", "ta"), (31, "ty", "ta")]),
+]}
+_ACC_NAMES = ["ta", "tb", "pa", "pb", "pc"]
+
+
+def probe_access():
+    """-> (slots: [(id, ent | None)], exported: [(module index, table, name, ent | None)]) as the
+    implementation under test resolves / exports them on ACCESS_WITNESS"""
+    import random
+
+    from harness import c07 as H
+    from harness import c07_access as A
+
+    ford = common.import_ford()
+    files = A.render(ACCESS_WITNESS, random.Random(0))
+    with common.scratch_dir("ford-c07-probe-") as d:
+        slots, tables = A.observe(ford, H, d, ACCESS_WITNESS, files)
+    for i, e in slots.items():
+        if isinstance(e, tuple):
+            raise LookupError(f"probe_access: slot {i} holds {e[1]}, which is no entity of the witness")
+    exported = []
+    for k in range(len(ACCESS_WITNESS["modules"])):
+        for tag in ("p", "a", "t"):
+            tb = tables[(k, tag)]
+            for n, e in tb.items():
+                if isinstance(e, tuple) or n not in _ACC_NAMES:
+                    raise LookupError(f"probe_access: public table {tag} of module {k} holds {n} -> {e}")
+            for n in _ACC_NAMES:
+                exported.append((k, tag, n, tb.get(n)))
+    return sorted(slots.items()), exported
+
+
+def _access_lean(acc):
+    slots, exported = acc
+    mods = []
+    for m in ACCESS_WITNESS["modules"]:
+        mods.append(
+            "  (" + _chars(m["name"]) + ", " + _b(m["dflt"] == "private") + ", ["
+            + ", ".join(f"({_b(kw == 'private')}, {_chars(n)})" for kw, n in m["stmts"]) + "], ["
+            + ", ".join(_chars(u["mod"]) for u in m["uses"]) + "],\n    ["
+            + ", ".join(f"({_q(d['k'])}, {_chars(d['name'])}, {d['ent']}, {_q(d['attr'] or '')})" for d in m["decls"]) + "],\n    ["
+            + ", ".join(f"({r['id']}, {_q({'ty': 'ty', 'pa': 'pa', 'ctor': 'pr'}[r['k']])}, {_chars(r['name'])})" for r in m["refs"]) + "])")
+    return [
+        "/-- accessibility witness (translate/c07.py: ACCESS_WITNESS): per module (name, has a bare PRIVATE, access statements",
+        "    (is PRIVATE, name), modules used without list, declarations (kind t/g/p/a, name, entity, access attribute),",
+        "    references (slot, lookup kind, name)) -/",
+        "def accessWitness : List (List Char × Bool × List (Bool × List Char) × List (List Char) ×",
+        "    List (String × List Char × Nat × String) × List (Nat × String × List Char)) := [",
+        ",\n".join(mods) + "]",
+        "",
+        "/-- what the implementation under test stored in the reference slots of the witness (none = text) -/",
+        "def accessSlots : List (Nat × Option Nat) := [" + ", ".join(f"({i}, {_opt(e)})" for i, e in slots) + "]",
+        "",
+        "/-- what the implementation's public tables hold: (module index, p = pub_procs / a = pub_absints / t = pub_types, name, entity) -/",
+        "def accessExported : List (Nat × String × List Char × Option Nat) := ["
+        + ", ".join(f"({k}, {_q(t)}, {_chars(n)}, {_opt(e)})" for k, t, n, e in exported) + "]",
+        "",
+    ]
+
+
 def _q(x):
     return '"' + x.replace("\\", "\\\\").replace('"', '\\"') + '"'
 
@@ -1012,6 +1151,8 @@ def generate():
     gen = probe_generic()
     sub = probe_sub()
     mut = extract_mutations()
+    acc = probe_access()
+    prv = probe_private()
     use_lines = []
     for only, items, res in use:
         use_lines.append(
@@ -1076,11 +1217,16 @@ def generate():
         "/-- ... the sites, in source order -/",
         f"def nameTableSites : List String := {_lstr(list(dict.fromkeys(s for s, _, _ in mut)))}",
         "",
+        "/-- private-binding witness (ta: private pa = 10, public pb = 12; tb extends ta: generic g => pa, pb = slots 0, 1;",
+        "    tc extends tb: generic h => pa = slot 2): what the specifics hold -/",
+        "def privateProbe : List (Nat × Option Nat) := [" + ", ".join(f"({i}, {_opt(e)})" for i, e in prv) + "]",
+        "",
+    ] + _access_lean(acc) + [
         "end Ford.C07Gen",
         "",
     ]
     common.write_if_changed(common.LEAN / "FordModel" / "Generated" / "C07.lean", "\n".join(lines))
-    return {"recursion": rec, "host": host, "lookups": lk, "use": use, "blocks": blk, "generic": gen, "sub": sub}
+    return {"recursion": rec, "host": host, "lookups": lk, "use": use, "blocks": blk, "generic": gen, "sub": sub, "access": acc, "private": prv}
 
 
 if __name__ == "__main__":
